@@ -15,12 +15,20 @@
 (* [-lam, lam],  prox_{tau g}(w) = (w + tau y)/(1 + tau): from a zero start    *)
 (* the dual stays put while the primal moves.  theta is the caller's          *)
 (* extrapolation factor (1, 1/2 or 0 = Arrow-Hurwicz).                        *)
+(* A third family ("con") is the problem sigpy.app.L2ConstrainedMinimization  *)
+(* hands to the solver (sigpy/app.py:542-628):  min_x g(x)  s.t. |a x - y| <= eps *)
+(* per component (one component = the app's l2 ball in one dimension, where    *)
+(* the projection needs no square root):  f = indicator of the ball,            *)
+(*   prox_{sigma f^*}(w) = w - sigma clip(w / sigma, y - eps, y + eps)          *)
+(* (Moreau, prox.Conj(prox.L2Proj(eps, y))),  prox_{tau g} as in the first      *)
+(* family with g in {lam |.|, lam/2 |.|^2}; the saddle point is the point of    *)
+(* the feasible interval nearest to 0 with the multiplier -g'(x^)/a.            *)
 (* Steps may be per-component (array-valued tau, sigma) with                  *)
 (* tau_i sigma_i a_i^2 <= 1.                                                  *)
 (* DEFINITION LAYER: the saddle point  x^ = prox_{g/a^2}(y/a),  u^ = a x^ - y.  *)
 EXTENDS Rat, Sequences, TLC
 
-CONSTANTS Insts,    \* records [id, cap, fam : STRING, theta : Rat, a, y : Seq(Rat), g : STRING, lam, lo, hi : Rat, tau, sigma : Seq(Rat), x0, u0 : Seq(Rat), start : STRING]
+CONSTANTS Insts,    \* records [id, cap, fam : STRING, theta : Rat, a, y : Seq(Rat), g : STRING, lam, lo, hi, eps : Rat, tau, sigma : Seq(Rat), x0, u0 : Seq(Rat), start : STRING]
           MaxIters
 VARIABLES inst, max_iter, iter, x, u, xext, xprev, moved
 vars == <<inst, max_iter, iter, x, u, xext, xprev, moved>>
@@ -37,9 +45,12 @@ ProxG(t, w) ==
     [] inst.g = "box"  -> RMax(inst.lo, RMin(w, inst.hi))
 
 Tv == inst.fam = "tv"
+Con == inst.fam = "con"
+Clip(w, l, h) == RMax(l, RMin(w, h))
 StepU(uu, xe) == TLCEval([i \in 1..N |->
    LET w == RAdd(uu[i], RMul(inst.sigma[i], RMul(inst.a[i], xe[i]))) IN
    IF Tv THEN RMax(RNeg(inst.lam), RMin(w, inst.lam))
+   ELSE IF Con THEN RSub(w, RMul(inst.sigma[i], Clip(RDiv(w, inst.sigma[i]), RSub(inst.y[i], inst.eps), RAdd(inst.y[i], inst.eps))))
    ELSE RDiv(RSub(w, RMul(inst.sigma[i], inst.y[i])), RAdd(RInt(1), inst.sigma[i]))])
 StepX(xx, un) == TLCEval([i \in 1..N |->
    LET w == RSub(xx[i], RMul(inst.tau[i], RMul(inst.a[i], un[i]))) IN
@@ -48,11 +59,20 @@ StepX(xx, un) == TLCEval([i \in 1..N |->
 Extr(xn, xo) == TLCEval([i \in 1..N |-> RAdd(xn[i], RMul(inst.theta, RSub(xn[i], xo[i])))])
 
 \* ---------------------------------------------------------------- definition layer
-XStarI(i) == IF Tv THEN Soft(inst.y[i], RMul(inst.lam, RAbs(inst.a[i])))      \* tv family: a # 0
+\* con family (a # 0, g in {l1, sq}, 0 not an end point of the feasible interval): the feasible point nearest to 0
+ConLo(i) == RMin(RDiv(RSub(inst.y[i], inst.eps), inst.a[i]), RDiv(RAdd(inst.y[i], inst.eps), inst.a[i]))
+ConHi(i) == RMax(RDiv(RSub(inst.y[i], inst.eps), inst.a[i]), RDiv(RAdd(inst.y[i], inst.eps), inst.a[i]))
+ConX(i) == Clip(RInt(0), ConLo(i), ConHi(i))
+ConU(i) == IF ConX(i) = RInt(0) THEN RInt(0)
+           ELSE IF inst.g = "l1" THEN RNeg(RDiv(RMul(inst.lam, IF RLt(RInt(0), ConX(i)) THEN RInt(1) ELSE RInt(0 - 1)), inst.a[i]))
+           ELSE RNeg(RDiv(RMul(inst.lam, ConX(i)), inst.a[i]))
+XStarI(i) == IF Con THEN ConX(i) ELSE
+             IF Tv THEN Soft(inst.y[i], RMul(inst.lam, RAbs(inst.a[i])))      \* tv family: a # 0
              ELSE IF inst.a[i] = RInt(0)
              THEN ProxG(RInt(1), RInt(0))     \* flat data term: minimiser of g alone (0, or the box point nearest 0); "zero" instances keep a # 0
              ELSE ProxG(RInv(RSq(inst.a[i])), RDiv(inst.y[i], inst.a[i]))
-UStarI(i) == IF Tv THEN RDiv(RSub(inst.y[i], XStarI(i)), inst.a[i])            \* stationarity x - y + a u = 0
+UStarI(i) == IF Con THEN ConU(i) ELSE
+             IF Tv THEN RDiv(RSub(inst.y[i], XStarI(i)), inst.a[i])            \* stationarity x - y + a u = 0
              ELSE RSub(RMul(inst.a[i], XStarI(i)), inst.y[i])
 XStar == TLCEval([i \in 1..N |-> XStarI(i)])
 UStar == TLCEval([i \in 1..N |-> UStarI(i)])
@@ -86,6 +106,8 @@ Spec == Init /\ [][Next]_vars /\ WF_vars(Next)
 AtSaddle == x = XStar /\ u = UStar /\ xext = x
 SaddleIsFixed == AtSaddle => (StepU(u, xext) = u /\ StepX(x, StepU(u, xext)) = x)
 \* tol = 0: the solver stops before max_iter only when primal AND dual did not move, and then (with x_ext = x) it sits at the saddle point
+\* con family: the primal iterate of a fixed point is feasible, and the saddle point is
+FeasibleSaddle == Con => \A i \in 1..N : RLe(RAbs(RSub(RMul(inst.a[i], XStarI(i)), inst.y[i])), inst.eps)
 EarlyStopIsSaddle == (iter >= 1 /\ ~moved /\ xext = x) => (x = XStar /\ u = UStar)
 EarlyStopIsFixed == (iter >= 1 /\ ~moved) => (xext = x /\ StepU(u, xext) = u /\ StepX(x, StepU(u, xext)) = x)
 \* Fejer monotonicity in the M-norm of the pair (previous primal, current dual) - He & Yuan 2012 for theta = 1
